@@ -7,7 +7,20 @@ Require Import Nib.C07.Model.
 (** which comparison of tx nonce against account sequence makes the increment decorator reject *)
 Inductive inc_cmp := CmpNeqRejects | CmpLtRejects | CmpGtRejects | CmpUnknown.
 
+(** how getAccountWithoutBalance fills the nonce of the statedb.Account it returns *)
+Inductive loader_shape :=
+| LoadSeqAlways    (* Nonce is GetSequence() of the auth account looked up, on every path *)
+| LoadSeqEthOnly   (* … only of the value the EthAccountI type assertion yields *)
+| LoadUnknown.
+
+Definition loader_of (sh : loader_shape) : option loader :=
+  match sh with LoadSeqAlways => Some load_std | LoadSeqEthOnly => Some load_eth_only | LoadUnknown => None end.
+
+(** the StateDB sees the stored sequence of every account, whatever its auth type *)
+Definition loader_faithful (l : loader) : Prop := forall k q, l k q = q.
+
 Record facts := {
+  f_loader : loader_shape;
   f_inc_check : inc_cmp;
   f_inc_reads_account_sequence : bool;
   f_inc_sets_plus_one : bool;
@@ -22,6 +35,7 @@ Record facts := {
 }.
 
 Definition facts_ok (f : facts) : bool :=
+  match f_loader f with LoadSeqAlways => true | _ => false end &&
   match f_inc_check f with CmpNeqRejects => true | _ => false end &&
   f_inc_reads_account_sequence f && f_inc_sets_plus_one f &&
   (f_sig_signer_of_this_chain f || f_cantransfer_signer_of_this_chain f) && f_sig_rejects_on_error f && f_sig_sets_from f &&
